@@ -38,8 +38,10 @@ func c17Engine(db *database.Database, cwd, rawQuery string, limitFlag int, allPl
 		return q, 0, nil, false
 	}
 	o := database.SearchOptions{Limit: L, UseFuzzy: true, FuzzyThreshold: -30, UseNLP: true, AllPlatforms: allPlatforms, Platforms: platforms, NoCrossPlatform: noCross}
-	if pc, _ := wtfctx.NewAnalyzer().AnalyzeDirectory(cwd); pc != nil {
-		o.ContextBoosts = pc.GetContextBoosts()
+	if cwd != "" { // "" = the working directory cannot be determined: no project context
+		if pc, _ := wtfctx.NewAnalyzer().AnalyzeDirectory(cwd); pc != nil {
+			o.ContextBoosts = pc.GetContextBoosts()
+		}
 	}
 	rs = db.SearchUniversal(q, o)
 	if len(rs) == 0 {
@@ -106,7 +108,7 @@ func c17UniqueDB(r *rand.Rand, n int, platforms int) []vlib.Cmd {
 
 func engineCLISearch(ctx *Ctx) {
 	r := vlib.NewRand(ctx.Seed, ctx.Shard, "cli-search")
-	nHome := ctx.N(64, 3200)
+	nHome := ctx.N(192, 3200)
 	for hI := 0; hI < nHome; hI++ {
 		base := filepath.Join(ctx.Scratch, fmt.Sprintf("cs%d", hI))
 		h := NewHome(base)
@@ -189,6 +191,17 @@ func engineCLISearch(ctx *Ctx) {
 			verbose := r.Intn(2) == 0
 			noColorFlag := r.Intn(3) == 0
 			noColorEnv := []string{"", "NO_COLOR=", "NO_COLOR=1"}[r.Intn(3)]
+			// spellings of the flag: bare, =true, and an explicit =false (which leaves NO_COLOR in charge)
+			noColorArg := ""
+			switch {
+			case noColorFlag:
+				noColorArg = []string{"--no-color", "--no-color=true", "--no-color=1"}[r.Intn(3)]
+			case r.Intn(4) == 0:
+				noColorArg = []string{"--no-color=false", "--no-color=0"}[r.Intn(2)]
+				ctx.R.Path("no-color-false-spelt-out", 1)
+			}
+			// the working directory was removed while the shell was still in it (a deleted build directory)
+			cwdGone := r.Intn(10) == 0
 			allPlat := r.Intn(2) == 0
 			var plats []string
 			if r.Intn(4) == 0 {
@@ -202,8 +215,8 @@ func engineCLISearch(ctx *Ctx) {
 			if verbose {
 				args = append(args, "-v")
 			}
-			if noColorFlag {
-				args = append(args, "--no-color")
+			if noColorArg != "" {
+				args = append(args, noColorArg)
 			}
 			if allPlat {
 				args = append(args, "--all-platforms")
@@ -222,10 +235,25 @@ func engineCLISearch(ctx *Ctx) {
 			if noColorEnv != "" {
 				env = append(env, noColorEnv)
 			}
-			cs := map[string]interface{}{"db": dbKind, "db_entries": len(db.Commands), "args_quoted": fmt.Sprintf("%q", args), "env": env, "search_no": s}
+			cs := map[string]interface{}{"db": dbKind, "db_entries": len(db.Commands), "args_quoted": fmt.Sprintf("%q", args), "env": env, "search_no": s, "working_directory_removed": cwdGone}
 			ctx.R.Begin(cs)
 			ctx.R.Eval(1)
-			res := h.Wtf(ctx.Wtf, env, args...)
+			var res CLIResult
+			replicaCwd := h.Cwd
+			if cwdGone {
+				ents, _ := os.ReadDir(h.Cwd)
+				if len(ents) == 0 {
+					res = h.RunCmd(60*time.Second, env, append([]string{"/bin/sh", "-c", `rmdir "$PWD" && exec "$@"`, "sh", ctx.Wtf}, args...)...)
+					os.MkdirAll(h.Cwd, 0o755)
+					replicaCwd = ""
+					ctx.R.Path("runs-in-a-removed-working-directory", 1)
+				} else {
+					cwdGone = false
+					res = h.Wtf(ctx.Wtf, env, args...)
+				}
+			} else {
+				res = h.Wtf(ctx.Wtf, env, args...)
+			}
 			if bad, why := res.Crashed(); bad {
 				ctx.R.Violate(vlib.Violation{Property: "C17", Clause: "command-crashes", Path: "wtf search", Detail: why,
 					Witness: map[string]interface{}{"case": cs, "stderr": vlib.Trunc(res.Stderr, 1500)}})
@@ -241,7 +269,7 @@ func engineCLISearch(ctx *Ctx) {
 			if !ctx.R.Guard("C17", "engine replica", cs, func() {
 				for i := 0; i < 3; i++ {
 					var rs []database.SearchResult
-					q, L, rs, accepted = c17Engine(db, h.Cwd, raw, limit, allPlat, plats, noCross)
+					q, L, rs, accepted = c17Engine(db, replicaCwd, raw, limit, allPlat, plats, noCross)
 					a := vlib.Canon(db.Commands, rs)
 					if i == 0 {
 						refRes = rs
